@@ -72,7 +72,17 @@ func civilOnlyUse(v ssa.Value, depth int) bool {
 			switch calleeName(f) {
 			case "(time.Time).Year", "(time.Time).Month", "(time.Time).Day", "(time.Time).Date", "(time.Time).YearDay", "(time.Time).Hour", "(time.Time).Minute", "(time.Time).Second":
 			default:
-				return false
+				// handed to a helper of the module: what the helper does with that parameter
+				if !inModule(f) || f.Blocks == nil || x.Call.IsInvoke() {
+					return false
+				}
+				for i, a := range x.Call.Args {
+					if a == v {
+						if i >= len(f.Params) || !civilOnlyUse(f.Params[i], depth+1) {
+							return false
+						}
+					}
+				}
 			}
 		case *ssa.Store:
 			// spilled into a local that is only read back: follow the alloc
